@@ -296,6 +296,52 @@ pub fn survive(z: &Zone, m: Option<&Model>) -> Value {
     }
     Value::Array(q)
 }
+thread_local! { static PUB_DIR: std::cell::RefCell<Option<std::path::PathBuf>> = std::cell::RefCell::new(None); }
+/// The same lookups through the PUBLIC route (TZ=:<file>, chrono::Local on a fresh thread): `Local` has no error channel, so a lookup
+/// that the zone answers with an error surfaces as a panic there ("answers ... without panicking" is about what a user can call).
+pub fn public_survive(bytes: &[u8], m: Option<&Model>) -> Vec<Value> {
+    use chrono::{Local, TimeZone};
+    let Some(dir) = PUB_DIR.with(|d| d.borrow().clone()) else { return vec![] };
+    let path = dir.join("public-route.tzif");
+    if std::fs::write(&path, bytes).is_err() { return vec![]; }
+    let mut walls: Vec<i64> = vec![MIN_UTC + 100_000, 0, MAX_UTC - 100_000];
+    let mut instants: Vec<i64> = vec![MIN_UTC, 0, MAX_UTC];
+    if let Some(m) = m { for (t, _) in m.trans.iter().take(3).chain(m.trans.iter().rev().take(3)) {
+        for d in [-90_000i64, -1, 0, 1, 90_000] { if let Some(x) = t.checked_add(d) { if x > MIN_UTC + 90_000 && x < MAX_UTC - 90_000 { walls.push(x); instants.push(x); } } } } }
+    std::env::set_var("TZ", format!(":{}", path.display()));
+    let h = std::thread::spawn(move || {
+        let mut q = Vec::new();
+        for t in instants { let Some(nd) = naive(t) else { continue };
+            q.push(json!({"k": "public-at", "t": big(t as i128), "r": if guard(|| Local.from_utc_datetime(&nd)).is_ok() { "ok" } else { "panic" }})); }
+        for w in walls { let Some(nd) = naive(w) else { continue };
+            q.push(json!({"k": "public-local", "t": big(w as i128), "r": if guard(|| Local.from_local_datetime(&nd)).is_ok() { "ok" } else { "panic" }})); }
+        q
+    });
+    let r = h.join().unwrap_or_default();
+    std::env::remove_var("TZ");
+    let _ = std::fs::remove_file(&path);
+    r
+}
+/// A reader is a function of its argument: the outcome for a text must not depend on what the same thread read before. Each outcome is
+/// taken once on a fresh thread and once right after the same text was read in the OTHER dialect (with / without the version-3 extensions).
+pub fn tzstr_seq_event(text: &[u8]) -> Value {
+    let chars = Value::Array(text.iter().map(|c| json!(*c)).collect());
+    let t0 = text.to_vec();
+    ev("tzstr_seq", json!({"chars": chars, "len": text.len()}), move || {
+        let fresh = |f: Box<dyn FnOnce() -> Value + Send>| std::thread::spawn(f).join().unwrap_or(json!({"err": "thread panicked"}));
+        let s = std::str::from_utf8(&t0).unwrap_or("?").to_string();
+        let (a, b, c, d, e, f2) = (t0.clone(), t0.clone(), t0.clone(), t0.clone(), t0.clone(), t0.clone());
+        let (s1, s2) = (s.clone(), s.clone());
+        json!({
+            "plain_fresh": fresh(Box::new(move || read_result(&Zone::from_tz_rule(&a, false)).0)),
+            "plain_after_v3": fresh(Box::new(move || { let _ = Zone::from_tz_rule(&b, true); read_result(&Zone::from_tz_rule(&b, false)).0 })),
+            "v3_fresh": fresh(Box::new(move || read_result(&Zone::from_tz_rule(&c, true)).0)),
+            "v3_after_plain": fresh(Box::new(move || { let _ = Zone::from_tz_rule(&d, false); read_result(&Zone::from_tz_rule(&d, true)).0 })),
+            "env_fresh": fresh(Box::new(move || { let _ = &e; read_result(&Zone::from_env_value(&s1)).0 })),
+            "env_after_v3": fresh(Box::new(move || { let _ = Zone::from_tz_rule(&f2, true); read_result(&Zone::from_env_value(&s2)).0 })),
+        })
+    })
+}
 fn read_result(z: &Result<Zone, String>) -> (Value, Option<Model>) {
     match z {
         Ok(z) => match Model::from_describe(&z.describe()) {
@@ -311,7 +357,12 @@ pub fn tzif_event(kind: &str, bytes: &[u8], sys: bool, base: bool) -> Value {
         let z = Zone::from_tzif(bytes);
         let peak = tzalloc::peak();
         let (r, m) = read_result(&z);
-        let q = match &z { Ok(z) => survive(z, m.as_ref()), Err(_) => json!([]) };
+        let mut q = match &z { Ok(z) => survive(z, m.as_ref()), Err(_) => json!([]) };
+        // files whose transition times or offsets are at their extremes (and the conforming base files) also through chrono::Local
+        // (only zones all of whose offsets chrono::FixedOffset can hold: |offset| < 24 h; beyond that `Local` cannot express the answer -
+        // the observation recorded in DESIGN 13.4, outside this property)
+        let representable = m.as_ref().map(|m| m.offsets().into_iter().all(|o| o.abs() < 86_400)).unwrap_or(false);
+        if z.is_ok() && representable && (base || kind.starts_with("times:") || kind.starts_with("offset:")) { if let Value::Array(a) = &mut q { a.extend(public_survive(bytes, m.as_ref())); } }
         json!({"r": r, "q": q, "peak": peak})
     })
 }
@@ -352,6 +403,7 @@ pub fn run(ctx: &Ctx) -> Value {
     let mut rng = Rng::new(ctx.seed ^ 0x16);
     let mut tw = Tw::new(&ctx.out, "Trace_TzRead", ctx.t(250, 1_500));
     let (mut n_base, mut n_mut, mut n_sys, mut n_rand, mut n_gen, mut n_mutstr) = (0usize, 0usize, 0usize, 0usize, 0usize, 0usize);
+    PUB_DIR.with(|d| *d.borrow_mut() = Some(std::path::PathBuf::from(&ctx.out)));
     // ---- conforming files from the harness's own writer and their structured mutations ----------------------
     for (m, vers) in base_models() {
         for ver in vers {
@@ -391,7 +443,12 @@ pub fn run(ctx: &Ctx) -> Value {
         }
         for _ in 0..2 { let m = mutate_text(&mut rng, g.text.as_bytes()); tw.emit(tzstr_event("rule", &m, g.v3 || rng.chance(1, 4), false)); n_mutstr += 1; }
     }
+    // ---- the outcome for a text does not depend on what was read before (both dialects, the environment route) ---------------
+    let mut n_seq = 0usize;
+    for s in HAND_STRINGS { tw.emit(tzstr_seq_event(s.as_bytes())); n_seq += 1; }
+    for t in ["<-03>3<-02>,M3.5.0/-2,M10.5.0/-1", "EST5EDT,0/0,J365/25", "AAA3BBB,J1/167,J300/-167", "CET-1CEST,M3.5.0,M10.5.0/3", "XXX-0:30", "AAA-1BBB,M3.5.0/24,M10.5.0/25"] { tw.emit(tzstr_seq_event(t.as_bytes())); n_seq += 1; }
+    for i in 0..ctx.t(60, 1_500) { let g = gen_rule(&mut rng, true, i % 3 != 0); tw.emit(tzstr_seq_event(g.text.as_bytes())); n_seq += 1; }
     tw.finish();
-    json!({"base_files": n_base, "mutated_files": n_mut, "system_files": n_sys, "system_files_available": files.len(), "random_byte_strings": n_rand,
+    json!({"sequence_independence_events": n_seq, "base_files": n_base, "mutated_files": n_mut, "system_files": n_sys, "system_files_available": files.len(), "random_byte_strings": n_rand,
            "generated_tz_strings": n_gen, "mutated_tz_strings": n_mutstr, "events": tw.total})
 }
